@@ -313,7 +313,9 @@ func wideProgram(mode int) {
 	e := NewEngine()
 	sizes := []int{41, 42, 43, 255, 256, 257, 541, 542, 543}
 	if sv.Thorough() {
-		sizes = append(sizes, 1043, 65535, 65536)
+		// (the 64 KiB boundary is form 8's, built as an AST: a 65 536-element
+		// source text costs the quadratic lexer minutes natively and more here)
+		sizes = append(sizes, 1043, 4099)
 	}
 	form := sv.Choice("form", 9)
 	var n int
@@ -338,6 +340,9 @@ func wideProgram(mode int) {
 	case 1:
 		src = "len([" + repeatSrc("\"k\": a", n, ", ") + "])"
 	case 2: // n live stack slots: nested additions to the right
+		if n > 1043 {
+			n = 1043 // (deeper nests exceed the engine's call-depth model long before the native stack)
+		}
 		src = repeatSrc("a + (", n, "") + "a" + repeatSrc(")", n, "")
 	case 3: // a conditional whose branches span more than 255 / 65535 bytes
 		src = "if(c, " + repeatSrc("a", n, " + ") + ", " + repeatSrc("b", n, " * ") + ")"
